@@ -605,7 +605,9 @@ func testSqueeze(t *testing.T, prop string, pairs []string) {
 func TestC02Squeeze(t *testing.T) {
 	testSqueeze(t, "C02", append(append([]string{}, squeezePairs[:5]...), "waitexpire-put", "expired-get-put", "expired-getmany-put"))
 }
-func TestC06Squeeze(t *testing.T) { testSqueeze(t, "C06", expiredPairs) }
+func TestC06Squeeze(t *testing.T) {
+	testSqueeze(t, "C06", append(append([]string{}, expiredPairs...), "wait-expiring", "waitexpire-put"))
+}
 func TestC07Squeeze(t *testing.T) {
 	testSqueeze(t, "C07", append(append([]string{}, squeezePairs[5:]...), "wait-expiring", "waitexpire-put"))
 }
